@@ -1,10 +1,18 @@
 package checks
 
 import (
+	"bufio"
+	"bytes"
+	"encoding/json"
 	"fmt"
+	"os"
+	"path/filepath"
 	"sort"
+	"strings"
 	"verif/internal/docgen"
+	"verif/internal/evid"
 	"verif/internal/jsonx"
+	"verif/internal/stage"
 
 	"verif/internal/sem"
 	"verif/internal/sg"
@@ -78,6 +86,12 @@ func c19(ctx *Ctx) (*Outcome, error) {
 	o := FromSem(ctx, rep, "for every generated type that has a generated UnmarshalJSON/UnmarshalYAML (root and nested/definition/enum/anyOf-branch types): valid documents, single-fault mutants, truncations and byte mutations of valid documents, every top-level JSON kind, 10^4-deep nesting, huge numbers, invalid UTF-8, malformed and YAML-specific inputs; through json.Unmarshal, the method called directly, and yaml.Unmarshal; with destination = zero value and = value decoded from another valid document; oracle: no panic/fatal event, and after an error reflect.DeepEqual(destination, independently decoded snapshot); a share re-run with 8 goroutines under -race",
 		8000, []string{"a BEGIN without END in the event log is attributed to that command (child restarted)", "only types with a generated method are judged for 'unchanged on error' (plain encoding/json may fill fields before failing)"})
 	o.Coverage["race_detector_executions"] = rr.Decided
+	fcalls, fviols, ferr := formatTypeMonitor(ctx)
+	if ferr != nil {
+		return nil, ferr
+	}
+	o.Coverage["format_types_called_directly"] = fcalls
+	o.Violations = append(o.Violations, fviols...)
 	return o, nil
 }
 
@@ -255,4 +269,94 @@ func c19Shapes(ctx *Ctx) []*sem.Case {
 		}
 	}
 	return out
+}
+
+// formatTypeMonitor calls the exported format types of pkg/types directly - each as a decoding destination of its own
+// (the situation of a date field inside a struct that has no generated unmarshaler) - with canonical, near-canonical
+// and hostile texts, through json.Unmarshal, yaml.Unmarshal and the method itself, with a zero and a non-zero prior
+// value: no panic, and after an error the destination equals the prior value.
+func formatTypeMonitor(ctx *Ctx) (calls int, viols []Viol, err error) {
+	bin, err := ctx.Env.BuildInDrv(false)
+	if err != nil {
+		return 0, nil, err
+	}
+	type req struct {
+		Type  string `json:"type"`
+		Via   string `json:"via"`
+		Text  string `json:"text"`
+		Prior bool   `json:"prior"`
+	}
+	dates := []string{"2020-01-02", "2020-13-45", "not-a-date", "", "2020-01-02T25:61:00Z", "2020-01-02Tnoon", "2020-01-02T10:00:00Z", "2020-01-02 ", " 2020-01-02", "0000-01-01", "10000-01-01", "2020-1-2", "2020-01-02T", "2020-01-02Z", "20200102", "2020-02-30", "-2020-01-02", "2020-01-02\n", "١٢٣٤-٠١-٠٢", strings.Repeat("9", 5000)}
+	times := []string{"10:20:30", "25:61:00", "10:20", "", "10:20:30Z", "10:20:30+01:00", "10:20:30.123", "T10:20:30", "10:20:30 ", "noon", "10:20:30.", "10:20:60", "24:00:00", "1:2:3", strings.Repeat("1", 5000)}
+	var reqs []req
+	for _, prior := range []bool{false, true} {
+		for _, via := range []string{"json", "yaml", "json-direct"} {
+			add := func(typ, raw string) {
+				text := raw
+				switch via {
+				case "json", "json-direct":
+					b, _ := json.Marshal(raw)
+					text = string(b)
+				case "yaml":
+					b, _ := json.Marshal(raw) // a double-quoted YAML scalar
+					text = string(b)
+				}
+				reqs = append(reqs, req{Type: typ, Via: via, Text: text, Prior: prior})
+			}
+			for _, d := range dates {
+				add("date", d)
+			}
+			for _, t := range times {
+				add("time", t)
+			}
+			// values of other JSON / YAML kinds
+			for _, raw := range []string{"null", "5", "true", "[]", "{}", "1.5", "[\"2020-01-02\"]", "{\"a\":1}"} {
+				reqs = append(reqs, req{Type: "date", Via: via, Text: raw, Prior: prior}, req{Type: "time", Via: via, Text: raw, Prior: prior})
+			}
+			if via == "yaml" {
+				for _, raw := range []string{"2020-01-02", "2001-12-14t21:59:43.10-05:00", "2020-01-02T25:61:00Z", "10:20:30", "~", "!!timestamp 2020-01-02", "&a 2020-01-02", "- 2020-01-02", "2020-01-02: x"} {
+					reqs = append(reqs, req{Type: "date", Via: via, Text: raw, Prior: prior}, req{Type: "time", Via: via, Text: raw, Prior: prior})
+				}
+			}
+		}
+	}
+	var in bytes.Buffer
+	for _, r := range reqs {
+		j, _ := json.Marshal(r)
+		in.Write(j)
+		in.WriteByte('\n')
+	}
+	pr := stage.Run(stage.Proc{Path: bin, Args: []string{"formattypes"}, Stdin: in.Bytes(), CPUSec: 120})
+	if pr.Exit != 0 {
+		return 0, nil, fmt.Errorf("formattypes driver failed: exit=%d %s", pr.Exit, pr.Stderr)
+	}
+	sc := bufio.NewScanner(bytes.NewReader(pr.Stdout))
+	sc.Buffer(make([]byte, 1<<16), 1<<22)
+	i := 0
+	for sc.Scan() && i < len(reqs) {
+		var res map[string]any
+		if json.Unmarshal(sc.Bytes(), &res) != nil {
+			break
+		}
+		r := reqs[i]
+		i++
+		problem := ""
+		if p, ok := res["panic"]; ok {
+			problem = fmt.Sprintf("panic: %v", p)
+		} else if _, failed := res["err"]; failed && r.Prior {
+			if unch, _ := res["unchanged"].(bool); !unch {
+				problem = fmt.Sprintf("returned an error (%v) after changing the destination", res["err"])
+			}
+		}
+		if problem != "" && len(viols) < 5 {
+			b, _ := json.MarshalIndent(map[string]any{"property": "C19", "monitor": "pkg/types called directly", "request": r, "result": res, "problem": problem}, "", " ")
+			path := filepath.Join(evid.ReplayDir(), fmt.Sprintf("C19-formattype-%d.json", len(viols)))
+			_ = os.WriteFile(path, b, 0o644)
+			viols = append(viols, Viol{Replay: path, Summary: fmt.Sprintf("types.Serializable%s as its own destination, via %s, text %s, prior value %v: %s", strings.Title(r.Type), r.Via, trunc(r.Text, 60), r.Prior, problem)})
+		}
+	}
+	if i != len(reqs) {
+		return i, viols, fmt.Errorf("formattypes driver answered %d of %d requests", i, len(reqs))
+	}
+	return i, viols, nil
 }
